@@ -9,5 +9,10 @@ CONSTANTS
   MergeMax = 5
   AppendMax = 3
   ZipSizes = {1,2,3,4,5,6,7,8,9,10}
+  RawNs = {1,2,3,4,5,6,7,8,9,10,11,12}
+  RawSpans = {1,2,3,5,12}
+  BmNs = {2,3,4,5,6,7,8,9}
+  SmallMax = 3
+  ExtractNs = {1,4,6,9,12}
   Emit = TRUE
 INVARIANTS PartsOK MergeOK TreesClear EmitCase
